@@ -477,6 +477,28 @@ theorem C15_matmul_batched_mat_vec {x y : Tensor R} {xb : List Nat} {m k : Nat}
   simp only [List.nil_append]
   rw [pentry_vec_right hy c.isLt]
 
+/-- **matmul, one vector · batched matrices** `(k) · (…, k, p)` (torch promotes the vector to `1×k`, broadcasts it
+over the batch axes and removes the added axis): `z(batch, j) = Σ_c x_c · y(batch, c, j)`. -/
+theorem C15_matmul_vec_batched {x y : Tensor R} {yb : List Nat} {k p : Nat}
+    (hx : IsCplx x [k]) (hy : IsCplx y (yb ++ [k, p])) :
+    ∃ z, matmul x y = .ok z ∧ IsCplx z (yb ++ [p]) ∧
+      ∀ bi j, Valid yb bi → j < p →
+        centry z (bi ++ [j]) = C.sum k (fun c => C.mul (centry x [c.val]) (centry y (bi ++ [c.val, j]))) := by
+  have hly : ((yb ++ [k, p]).length == 1) = false := by simp
+  obtain ⟨z, hz, hc, he⟩ := matmul_core (xb := []) (yb := yb) (bs := yb) (m := 1) (k := k) (p := p) hx hy
+    (by simp) (by simp) (by simp) (by simp) (broadcastShape_nil_left yb) (by simp [numel_append, numel])
+  simp only [hly, Bool.false_eq_true, if_false, List.length_cons, List.length_nil,
+    show ((0 + 1 == 1) = true) = True by simp, if_true, List.append_nil] at hc he
+  refine ⟨z, hz, hc, fun bi j hbi hj => ?_⟩
+  have hl := hbi.length
+  rw [he (bi ++ [j]) bi 0 j ((valid_append hl).2 ⟨hbi, by simp [hj]⟩) hbi (by omega) hj
+    (by rw [flatten_append hl, flatten_append hl]; simp [flatten, numel])]
+  congr 1
+  funext c
+  rw [bidx_self hbi, bidx_nil, pentry_self hy ((valid_append hl).2 ⟨hbi, by simp [hj]⟩)]
+  simp only [List.nil_append]
+  rw [pentry_vec_left hx c.isLt]
+
 /-- **matmul, vector · matrix**: `z_j = Σ_c x_c · y(c, j)`. -/
 theorem C15_matmul_vec_mat {x y : Tensor R} {k p : Nat} (hx : IsCplx x [k]) (hy : IsCplx y [k, p]) :
     ∃ z, matmul x y = .ok z ∧ IsCplx z [p] ∧
@@ -789,43 +811,61 @@ theorem C15_dec_sums (n : ℕ) (f : Fin n → C ℝ) (l : List (C ℝ)) :
     dec (C.sum n f) = ∑ i, dec (f i) ∧ dec (cpairSum l) = (l.map dec).sum :=
   ⟨dec_sum n f, dec_cpairSum l⟩
 
+/-- **hypot**: the scaled formula the model (and C99 / `torch.hypot`) uses for the modulus IS `√(a² + b²)`, for all
+reals including `a = b = 0` (where the scale is 0 and the formula must not divide). -/
+theorem C15_hypot (a b : ℝ) : hypot a b = Real.sqrt (a * a + b * b) ∧ hypot a b = ‖dec (a, b)‖ :=
+  ⟨hypot_eq a b, hypot_eq_norm (a, b)⟩
+
+/-- **why the scaled forms cannot overflow**: for a non-zero entry the components divided by the larger one lie in
+`[-1, 1]` and `|z/scale|²` in `[1, 2]` — the quantities `inverse`, `elementwise_division` and `hypot` square are of
+order 1 whatever the magnitude of `z` (the pre-repair code squared `z` itself). -/
+theorem C15_scaled_operand_range {z : Tensor ℝ} {s : List Nat} (hz : IsCplx z s) :
+    ∃ sc w, cscale z = .ok sc ∧ bop (fun a b => a / b) z sc = .ok w ∧ IsCplx w s ∧
+      ∀ idx, Valid s idx → dec (centry z idx) ≠ 0 →
+        0 < sc.at idx ∧ dec (centry w idx) = dec (centry z idx) / (sc.at idx : ℂ) ∧
+        |(centry w idx).1| ≤ 1 ∧ |(centry w idx).2| ≤ 1 ∧ 1 ≤ C.normSq (centry w idx) ∧ C.normSq (centry w idx) ≤ 2 := by
+  obtain ⟨hss, hsw, hse⟩ := zip_planes (fun a b : ℝ => Transc.max (Transc.abs a) (Transc.abs b)) hz
+  obtain ⟨w, hw, hwc, hwe⟩ := bop_planes (fun a b : ℝ => a / b) hz hss
+  refine ⟨_, w, by unfold cscale; rw [real_eq hz, imag_eq hz]; rfl, hw, hwc, fun idx hv hne => ?_⟩
+  have hpos := cscale_pos hne
+  obtain ⟨h1, h2, h3, h4⟩ := scaled_bounds (centry z idx).1 (centry z idx).2 hpos
+  rw [hwe idx hv, hse idx hv]
+  simp only [transc_max, transc_abs]
+  refine ⟨hpos, ?_, h1, h2, h3, h4⟩
+  apply Complex.ext <;> simp [Complex.div_re, Complex.div_im, Complex.normSq_apply] <;> field_simp
+
 /-- **absolute_value**: the complex modulus, entrywise, every rank. -/
 theorem C15_absolute_value {x : Tensor ℝ} {s : List Nat} (hx : IsCplx x s) :
     ∃ r, absoluteValue x = .ok r ∧ r.shape = s ∧ WF r ∧ ∀ idx, Valid s idx → r.at idx = ‖dec (centry x idx)‖ := by
-  obtain ⟨xs, hxs, hxsc, hxse⟩ := C15_conj hx
-  obtain ⟨p, hp, hpc, hpe⟩ := C15_scalar_mult hx hxsc (broadcastShape_self s)
+  obtain ⟨hss, hsw, hse⟩ := zip_planes (hypot (α := ℝ)) hx
   unfold absoluteValue
-  rw [hxs]
-  simp only [ok_bind, elementwiseMult, hp, real_eq hpc, pure_eq_ok]
-  refine ⟨_, rfl, rfl, wf_map _ _ (reT_wf hpc), fun idx hv => ?_⟩
-  rw [at_map _ _ (reT_wf hpc) (by simpa using hv), reT_at hpc hv, hpe idx hv, bidx_self hv, hxse idx hv]
-  simp only [transc_sqrt]
-  exact abs_code _
+  rw [real_eq hx, imag_eq hx]
+  simp only [ok_bind, pure_eq_ok]
+  refine ⟨_, rfl, hss, hsw, fun idx hv => ?_⟩
+  rw [hse idx hv]
+  exact hypot_eq_norm _
 
 /-- **elementwise_division**: `x / y` entrywise for equally shaped operands, at every entry where `y ≠ 0`
-(at `y = 0` the code yields `nan`/`inf`; recorded in notes/C15.md). -/
+(at `y = 0` the code yields `nan`; recorded in notes/C15.md). -/
 theorem C15_elementwise_division {x y : Tensor ℝ} {s : List Nat} (hx : IsCplx x s) (hy : IsCplx y s) :
     ∃ z, elementwiseDivision x y = .ok z ∧ IsCplx z s ∧
       ∀ idx, Valid s idx → dec (centry y idx) ≠ 0 → dec (centry z idx) = dec (centry x idx) / dec (centry y idx) := by
-  obtain ⟨ys, hys, hysc, hyse⟩ := C15_conj hy
-  obtain ⟨ab, hab, habs, habw, habe⟩ := C15_absolute_value hy
-  obtain ⟨p, hp, hpc, hpe⟩ := C15_scalar_mult hx hysc (broadcastShape_self s)
+  obtain ⟨hss, hsw, hse⟩ := zip_planes (fun a b : ℝ => Transc.max (Transc.abs a) (Transc.abs b)) hy
+  obtain ⟨y', hy', hy'c, hy'e⟩ := bop_planes (fun a b : ℝ => a / b) hy hss
+  obtain ⟨ys, hys, hysc, hyse⟩ := C15_conj hy'c
+  obtain ⟨ab, hab, habs, habw, habe⟩ := C15_absolute_value hy'c
+  obtain ⟨x', hx', hx'c, hx'e⟩ := bop_planes (fun a b : ℝ => a / b) hx hss
+  obtain ⟨p, hp, hpc, hpe⟩ := C15_scalar_mult hx'c hysc (broadcastShape_self s)
   have hsh : ¬ x.shape ≠ y.shape := by rw [hx.1, hy.1]; simp
-  unfold elementwiseDivision
-  rw [if_neg hsh, hys]
-  simp only [ok_bind, hab, elementwiseMult, hp]
-  rw [bop_eq _ p (ab.map fun v => v * v) (r := 2 :: s)
-    (by rw [hpc.1, map_shape, habs]; exact broadcastShape_cons_tail 2 s)]
-  refine ⟨_, rfl, isCplx_build _ _, fun idx hv hne => ?_⟩
-  have hv0 : Valid (2 :: s) (0 :: idx) := by simp [hv]
-  have hv1 : Valid (2 :: s) (1 :: idx) := by simp [hv]
-  rw [centry_build _ hv]
-  simp only [hpc.1, map_shape, habs, bidx_self hv0, bidx_self hv1, bidx_tail _ hv,
-    at_map _ _ habw (idx := idx) (by rw [habs]; exact hv), habe idx hv]
-  have hp0 : p.at (0 :: idx) = (centry p idx).1 := rfl
-  have hp1 : p.at (1 :: idx) = (centry p idx).2 := rfl
-  rw [hp0, hp1, hpe idx hv, bidx_self hv, hyse idx hv, ← abs_code]
-  exact dec_div_code _ _ hne
+  unfold elementwiseDivision cscale
+  rw [if_neg hsh, real_eq hy, imag_eq hy]
+  simp only [ok_bind, pure_eq_ok, hy', hys, hab, hx', elementwiseMult, hp]
+  obtain ⟨z, hz, hzc, hze⟩ := bop_planes (fun a b : ℝ => a / b) hpc
+    (sc := ab.map fun v => v * v) (by rw [map_shape, habs])
+  refine ⟨z, hz, hzc, fun idx hv hne => ?_⟩
+  rw [hze idx hv, at_map _ _ habw (idx := idx) (by rw [habs]; exact hv), habe idx hv, hpe idx hv, bidx_self hv,
+    hyse idx hv, hx'e idx hv, hy'e idx hv, hse idx hv, ← hypot_eq_norm]
+  exact dec_div_scaled _ _ _ (ne_of_gt (cscale_pos hne)) hne
 
 /-- `elementwise_division` raises `ValueError` exactly on operands of different shapes (equal sizes or
 broadcastable shapes are NOT enough). -/
@@ -837,21 +877,18 @@ theorem C15_rejects_elementwise_division (x y : Tensor ℝ) (h : x.shape ≠ y.s
 theorem C15_inverse {z : Tensor ℝ} {s : List Nat} (hz : IsCplx z s) :
     ∃ w, inverse z = .ok w ∧ IsCplx w s ∧
       ∀ idx, Valid s idx → dec (centry z idx) ≠ 0 → dec (centry w idx) = (dec (centry z idx))⁻¹ := by
-  obtain ⟨zs, hzs, hzsc, hzse⟩ := C15_conj hz
-  obtain ⟨p, hp, hpc, hpe⟩ := C15_scalar_mult hz hzsc (broadcastShape_self s)
-  unfold inverse
-  rw [hzs]
-  simp only [ok_bind, hp, real_eq hpc]
-  rw [bop_eq _ zs (reT p s) (r := 2 :: s) (by rw [hzsc.1, reT_shape]; exact broadcastShape_cons_tail 2 s)]
-  refine ⟨_, rfl, isCplx_build _ _, fun idx hv _ => ?_⟩
-  have hv0 : Valid (2 :: s) (0 :: idx) := by simp [hv]
-  have hv1 : Valid (2 :: s) (1 :: idx) := by simp [hv]
-  rw [centry_build _ hv]
-  simp only [hzsc.1, reT_shape, bidx_self hv0, bidx_self hv1, bidx_tail _ hv, reT_at hpc hv]
-  have h0 : zs.at (0 :: idx) = (centry zs idx).1 := rfl
-  have h1 : zs.at (1 :: idx) = (centry zs idx).2 := rfl
-  rw [h0, h1, hpe idx hv, bidx_self hv, hzse idx hv]
-  exact dec_inv_code _
+  obtain ⟨hss, hsw, hse⟩ := zip_planes (fun a b : ℝ => Transc.max (Transc.abs a) (Transc.abs b)) hz
+  obtain ⟨z', hz', hz'c, hz'e⟩ := bop_planes (fun a b : ℝ => a / b) hz hss
+  obtain ⟨zs, hzs, hzsc, hzse⟩ := C15_conj hz'c
+  obtain ⟨p, hp, hpc, hpe⟩ := C15_scalar_mult hz'c hzsc (broadcastShape_self s)
+  obtain ⟨q, hq, hqc, hqe⟩ := bop_planes (fun a b : ℝ => a / b) hzsc (reT_shape p s)
+  obtain ⟨w, hw, hwc, hwe⟩ := bop_planes (fun a b : ℝ => a / b) hqc hss
+  unfold inverse cscale
+  rw [real_eq hz, imag_eq hz]
+  simp only [ok_bind, pure_eq_ok, hz', hzs, hp, real_eq hpc, hq]
+  refine ⟨w, hw, hwc, fun idx hv hne => ?_⟩
+  rw [hwe idx hv, hqe idx hv, reT_at hpc hv, hpe idx hv, bidx_self hv, hzse idx hv, hz'e idx hv, hse idx hv]
+  exact dec_inv_scaled _ _ (ne_of_gt (cscale_pos hne))
 
 /-- **scalar_divide**: `x / y` with the same broadcasting as `scalar_mult`, wherever the divisor entry is non-zero. -/
 theorem C15_scalar_divide {x y : Tensor ℝ} {sx sy r : List Nat} (hx : IsCplx x sx) (hy : IsCplx y sy)
@@ -867,31 +904,55 @@ theorem C15_scalar_divide {x y : Tensor ℝ} {sx sy r : List Nat} (hx : IsCplx x
   refine ⟨z, hz, hzc, fun idx hv hne => ?_⟩
   rw [hze idx hv, dec_mul, hiye _ (broadcast_valid hb hv).2 hne, div_eq_mul_inv]
 
-/-- **norm**: the Euclidean norm `√(Σ_c |x_c|²)` of a complex vector, `|x|` of a complex scalar. -/
+/-- the scale `norm` divides by is positive (the largest component, or 1 for the zero tensor) -/
+theorem normScale_pos (l : List ℝ) : 0 < (if 0 < maxAbs l then maxAbs l else 1) := by
+  split_ifs with h
+  · exact h
+  · exact one_pos
+
+/-- **norm**: the Euclidean norm `√(Σ_c |x_c|²)` of a complex vector, `|x|` of a complex scalar (zero tensors included:
+the scale is then 1). -/
 theorem C15_norm {x : Tensor ℝ} :
     (∀ n, IsCplx x [n] → ∃ r, Cplx.norm x = .ok r ∧ r.shape = [] ∧
       r.at [] = Real.sqrt (∑ c : Fin n, ‖dec (centry x [c.val])‖ ^ 2)) ∧
     (IsCplx x [] → ∃ r, Cplx.norm x = .ok r ∧ r.shape = [] ∧ r.at [] = ‖dec (centry x [])‖) := by
+  have hpos := normScale_pos x.data
+  set sc : ℝ := if 0 < maxAbs x.data then maxAbs x.data else 1 with hsc
+  have key : ∀ a b : ℝ, C.normSq (a / sc, b / sc) = C.normSq (a, b) / (sc * sc) := by
+    intro a b; simp only [C.normSq]; field_simp
+  have hsqrt : ∀ t : ℝ, 0 ≤ t → Real.sqrt (t / (sc * sc)) * sc = Real.sqrt t := by
+    intro t ht
+    rw [Real.sqrt_div ht, Real.sqrt_mul_self hpos.le, div_mul_cancel₀ _ (ne_of_gt hpos)]
   constructor
   · intro n hx
-    obtain ⟨r, hr, hrs, hrw, hre⟩ := (C15_norm_sqr (x := x)).1 n hx
+    obtain ⟨hmc, hme⟩ := map_cplx (fun v : ℝ => v / sc) hx
+    obtain ⟨r, hr, hrs, hrw, hre⟩ := (C15_norm_sqr (x := x.map fun v => v / sc)).1 n hmc
     unfold Cplx.norm
-    rw [hr]
-    simp only [ok_bind, pure_eq_ok]
+    simp only [← hsc, hr, ok_bind, pure_eq_ok]
     refine ⟨_, rfl, hrs, ?_⟩
     rw [at_map _ _ hrw (by rw [hrs]; exact valid_nil), hre]
-    simp only [transc_sqrt, dec_normSq, Complex.normSq_eq_norm_sq]
+    simp only [transc_sqrt]
+    have : ∑ c : Fin n, C.normSq (centry (x.map fun v => v / sc) [c.val])
+        = (∑ c : Fin n, ‖dec (centry x [c.val])‖ ^ 2) / (sc * sc) := by
+      rw [div_eq_mul_inv, Finset.sum_mul]
+      refine Finset.sum_congr rfl (fun c _ => ?_)
+      rw [hme [c.val] (by simp), key, dec_normSq, Complex.normSq_eq_norm_sq, div_eq_mul_inv]
+    rw [this]
+    exact hsqrt _ (Finset.sum_nonneg (fun c _ => by positivity))
   · intro hx
-    obtain ⟨r, hr, hrs, hrw, hre⟩ := (C15_norm_sqr (x := x)).2 hx
+    obtain ⟨hmc, hme⟩ := map_cplx (fun v : ℝ => v / sc) hx
+    obtain ⟨r, hr, hrs, hrw, hre⟩ := (C15_norm_sqr (x := x.map fun v => v / sc)).2 hmc
     unfold Cplx.norm
-    rw [hr]
-    simp only [ok_bind, pure_eq_ok]
+    simp only [← hsc, hr, ok_bind, pure_eq_ok]
     refine ⟨_, rfl, hrs, ?_⟩
-    rw [at_map _ _ hrw (by rw [hrs]; exact valid_nil), hre]
-    simp only [transc_sqrt, dec_normSq, Complex.norm_def]
+    rw [at_map _ _ hrw (by rw [hrs]; exact valid_nil), hre, hme [] valid_nil, key]
+    simp only [transc_sqrt]
+    rw [hsqrt _ (by unfold C.normSq; exact add_nonneg (mul_self_nonneg _) (mul_self_nonneg _)), dec_normSq,
+      Complex.norm_def]
 
 /-- **sigmoid(x, y)** of two real tensors (numpy broadcasting): the complex logistic function
-`e^z / (1 + e^z)` of `z = x + iy`, wherever `1 + e^z ≠ 0` (at `z = iπ` the code divides by ≈0; notes/C15.md). -/
+`e^z / (1 + e^z)` of `z = x + iy`, wherever `1 + e^z ≠ 0` (at `z = iπ` the code divides by ≈0; notes/C15.md).
+The model computes it as the repaired code does (`1/(1+e^{-z})` for `Re z > 0`, `e^z/(1+e^z)` otherwise). -/
 theorem C15_sigmoid {x y : Tensor ℝ} {r : List Nat} (hb : broadcastShape x.shape y.shape = .ok r) :
     ∃ z, Cplx.sigmoid x y = .ok z ∧ IsCplx z r ∧
       ∀ idx, Valid r idx →
@@ -904,6 +965,17 @@ theorem C15_sigmoid {x y : Tensor ℝ} {r : List Nat} (hb : broadcastShape x.sha
     (cat2_spec (s := r) (fun idx => sigC (x.at (bidx x.shape idx), y.at (bidx y.shape idx)))
       rfl rfl (wf_build _ _) (wf_build _ _) (fun idx hv => by rw [at_build _ hv, at_build _ hv]))
   rw [h.2.2 idx hv, dec_sigC _ hne]
+
+/-- **the exponential the sigmoid forms cannot overflow**: whichever branch `sigC` takes, the argument of its `exp` has
+non-positive real part, so `|e^{±z}| ≤ 1` (the pre-repair formula `e^z/(1+e^z)` formed `e^z`, which is `inf` for
+`Re z > 709.78`). -/
+theorem C15_sigmoid_exp_bounded (z : C ℝ) :
+    sigC z = (let e := expC (if 0 < z.1 then C.neg z else z)
+              C.div (if 0 < z.1 then C.one else e) (1 + e.1, e.2)) ∧
+    ‖dec (expC (if 0 < z.1 then C.neg z else z))‖ ≤ 1 := by
+  refine ⟨?_, sigC_exp_bounded z⟩
+  unfold sigC
+  split_ifs <;> rfl
 
 /-- `sigmoid` raises numpy's `ValueError` when the two real tensors do not broadcast. -/
 theorem C15_rejects_sigmoid {x y : Tensor ℝ} {e : PyErr} (hb : broadcastShape x.shape y.shape = .error e) :
